@@ -1936,6 +1936,16 @@ class Interp:
             return [(Str.make(fmt_parts(a, '')), st)]
         if name == 'bool' and len(args) == 1:
             return [(to_cond(args[0]), st)]
+        if name in ('re.compile', 'frozenset', 'logging.getLogger') and name != 'frozenset':
+            return [(Opaque('call:' + name, tuple(args)), st)]
+        if name == 'ord' and len(args) == 1 and isinstance(args[0], Str) and args[0].is_lit() \
+                and len(args[0].text()) == 1:
+            return [(Sym.const(ord(args[0].text())), st)]
+        if name == 'chr' and len(args) == 1 and num() and args[0].is_const() and \
+                args[0].const_value().denominator == 1 and 0 <= args[0].const_value() < 0x110000:
+            return [(Str.lit(chr(int(args[0].const_value()))), st)]
+        if name == 'str.maketrans' and len(args) == 1 and isinstance(args[0], DictV):
+            return [(args[0], st)]
         if name == 'range':
             return [(Opaque('range', tuple(args), 'list'), st)]
         if name in ('list', 'tuple') and len(args) <= 1:
